@@ -141,6 +141,8 @@ def build_router(real: Real, cfg):
             if mc["clear_state"] == CC.NEVER:
                 del mc["clear_state"]
             router.method(fn, **mc)
+        elif via == "decorator-sparse":
+            router.method(fn, **{k: v for k, v in mc.items() if v != CC.NEVER})
         else:
             router.add_method_handler(pt.ABIReturnSubroutine(fn), method_config=pt.MethodConfig(**mc))
     return router
@@ -477,6 +479,10 @@ def gen_cfg(r, max_methods):
             via = "default"
         elif c < 0.25:
             via = "decorator"
+        elif c < 0.45 and any(x != 0 for x in mc):
+            # only the keywords that differ from NEVER are written: the omitted ones must default to NEVER
+            # (Router.method: no_op defaults to CALL only when NO on-completion keyword is given)
+            via = "decorator-sparse"
         methods.append({"name": f"m{k}", "args": list(args), "ret": ret, "mc": mc, "via": via})
     bare = {}
     if r.random() < 0.75:
